@@ -42,6 +42,7 @@
 #include <stdarg.h>
 #include <sys/stat.h>
 #include <sys/wait.h>
+#include <algorithm>
 #include <fstream>
 #include <map>
 #include <set>
@@ -63,7 +64,8 @@ static char g_Log[16384];
 static size_t g_LogLen = 0;
 
 static bool IsTargetPath(const char *p) { return p && g_TargetLen && strcmp(p, g_Target) == 0; }
-static bool IsTmpPath(const char *p) { return p && g_TargetLen && strncmp(p, g_Target, g_TargetLen) == 0 && strncmp(p + g_TargetLen, ".tmp.", 5) == 0; }
+/* any sibling whose name extends the target's (path.tmp.XXXXXX today; the suffix pattern is the code's business) */
+static bool IsTmpPath(const char *p) { return p && g_TargetLen && strncmp(p, g_Target, g_TargetLen) == 0 && p[g_TargetLen] != 0; }
 
 static void LogCall(const char *kind, bool onTarget)
 {
@@ -175,6 +177,53 @@ int chmod(const char *p, mode_t mode)
 	if (g_Track && (IsTargetPath(p) || IsTmpPath(p)) && Relevant("chmod", IsTargetPath(p)))
 		_exit(77);
 	return real(p, mode);
+}
+
+int fchmod(int fd, mode_t mode)
+{
+	static auto real = Real<int (*)(int, mode_t)>("fchmod");
+	if (g_Track && fd == g_Fd && fd >= 0 && Relevant("chmod", false))
+		_exit(77);
+	return real(fd, mode);
+}
+
+int mkostemp(char *tmpl, int flags)
+{
+	static auto real = Real<int (*)(char *, int)>("mkostemp");
+	if (g_Track && IsTmpPath(tmpl)) {
+		if (Relevant("mkstemp", false))
+			_exit(77);
+		int fd = real(tmpl, flags);
+		g_Fd = fd;
+		return fd;
+	}
+	return real(tmpl, flags);
+}
+
+int mkstemps(char *tmpl, int suffixlen)
+{
+	static auto real = Real<int (*)(char *, int)>("mkstemps");
+	if (g_Track && IsTmpPath(tmpl)) {
+		if (Relevant("mkstemp", false))
+			_exit(77);
+		int fd = real(tmpl, suffixlen);
+		g_Fd = fd;
+		return fd;
+	}
+	return real(tmpl, suffixlen);
+}
+
+int mkostemps(char *tmpl, int suffixlen, int flags)
+{
+	static auto real = Real<int (*)(char *, int, int)>("mkostemps");
+	if (g_Track && IsTmpPath(tmpl)) {
+		if (Relevant("mkstemp", false))
+			_exit(77);
+		int fd = real(tmpl, suffixlen, flags);
+		g_Fd = fd;
+		return fd;
+	}
+	return real(tmpl, suffixlen, flags);
 }
 
 int mkstemp(char *tmpl)
@@ -320,7 +369,7 @@ static std::vector<std::string> GlobTmp(const std::string& path)
 {
 	std::vector<std::string> r;
 	try {
-		Utility::Glob(String(path) + ".tmp.*", [&r](const String& p) { r.push_back(p.GetData()); }, GlobFile);
+		Utility::Glob(String(path) + ".*", [&r](const String& p) { r.push_back(p.GetData()); }, GlobFile);
 	} catch (const std::exception&) { }
 	return r;
 }
@@ -1075,6 +1124,48 @@ static std::string KChildLoad(const std::string& kind, bool *hung)
 	return res;
 }
 
+/* The denotation of a file, independent of the order in which the objects were written: the state file as the sorted
+ * list of its netstring frames, the modified-attributes script as the sorted list of its per-object blocks. */
+static std::string Canon(const std::string& kind, const std::string& bytes)
+{
+	std::vector<std::string> parts;
+	if (kind == "state") {
+		size_t i = 0;
+		while (i < bytes.size()) {
+			size_t colon = bytes.find(':', i);
+			if (colon == std::string::npos || colon == i || colon - i > 9)
+				return "!" + bytes;
+			size_t len = 0;
+			for (size_t k = i; k < colon; k++) {
+				if (bytes[k] < '0' || bytes[k] > '9')
+					return "!" + bytes;
+				len = len * 10 + (bytes[k] - '0');
+			}
+			if (colon + 1 + len >= bytes.size() || bytes[colon + 1 + len] != ',')
+				return "!" + bytes;
+			parts.push_back(bytes.substr(colon + 1, len));
+			i = colon + 1 + len + 1;
+		}
+	} else if (kind == "modattr") {
+		size_t i = 0;
+		while (i <= bytes.size()) {
+			size_t j = bytes.find("\n\nvar obj = ", i);
+			if (j == std::string::npos) {
+				parts.push_back(bytes.substr(i));
+				break;
+			}
+			parts.push_back(bytes.substr(i, j - i) + "\n");
+			i = j + 2;
+		}
+	} else
+		return bytes;
+	std::sort(parts.begin(), parts.end());
+	std::string r;
+	for (const auto& p : parts)
+		r += std::to_string(p.size()) + ":" + p + ",";
+	return r;
+}
+
 struct KRef {
 	std::string oldBytes, newBytes, oldLoad, newLoad;
 	std::vector<std::string> calls;
@@ -1105,7 +1196,7 @@ static bool KPrepare(const std::string& kind, uint64_t cseed, KRef& ref, int *ha
 	ref.calls = SplitWs(log);
 	if (hung)
 		(*hangs)++;
-	return ref.oldBytes != ref.newBytes && (kind == "write" || ref.oldLoad != ref.newLoad);
+	return Canon(kind, ref.oldBytes) != Canon(kind, ref.newBytes) && (kind == "write" || ref.oldLoad != ref.newLoad);
 }
 
 static void KOne(const std::string& kind, uint64_t cseed, const KRef& ref, int k, bool partial, int *hangs)
@@ -1123,9 +1214,10 @@ static void KOne(const std::string& kind, uint64_t cseed, const KRef& ref, int k
 		found = "absent";
 	else {
 		std::string load = KChildLoad(kind, &hung);
-		if (bytes == ref.oldBytes && load == ref.oldLoad)
+		std::string canon = Canon(kind, bytes);
+		if (canon == Canon(kind, ref.oldBytes) && load == ref.oldLoad)
 			found = "old";
-		else if (bytes == ref.newBytes && load == ref.newLoad)
+		else if (canon == Canon(kind, ref.newBytes) && load == ref.newLoad)
 			found = "new";
 	}
 	std::string call = k < n ? ref.calls[k].substr(0, ref.calls[k].find(':')) : "end";
